@@ -6,8 +6,8 @@ from ..core import Machinery, quiet_stderr, VERIF
 from ..drivers import fs_drv
 from .chan_common import relevance
 
-DEVS = [("dev1", "FinalComplete"), ("dev3", "FinalImmutable"), ("dev4", "PropsPublishedComplete")]
-WITNESSES = ["NoCrashWithTmp", "NoFinalAfterFault", "ReaderNeverListsTwo"]
+DEVS = [("dev1", "FinalComplete"), ("dev3", "FinalImmutable"), ("dev4", "PropsPublishedComplete"), ("dev5", "FinalComplete")]
+WITNESSES = ["NoCrashWithTmp", "NoFinalAfterFault", "ReaderNeverListsTwo", "NoOrphanRecreated", "NoOrphanRemoved"]
 
 
 def e1(ctx):
